@@ -1,5 +1,92 @@
 import ZoektModel.Basic.Proto
+import ZoektModel.C05.Spec
+import ZoektModel.C05.Codec
 namespace ZoektModel.C05
-/-- stub: no model driver for C05 yet -/
-def main : IO Unit := ZoektModel.Proto.runLines (fun _ => ZoektModel.Proto.badCase "no model driver for C05")
+open ZoektModel ZoektModel.Proto ZoektModel.Query
+
+/-- failure class of a non-equivalent rewrite: `branch-empty-pattern` when reading `Branch ""` as TRUE in the
+    original makes the two trees agree (the known degenerate class), `not-equivalent` otherwise -/
+def failKey (same : Q → Q → Bool) (q q' : Q) : String :=
+  if hasEmptyBranch q && same (map emptyBranchAsTrue q) q' then "branch-empty-pattern" else "not-equivalent"
+
+def pCtx : P (List Shard) := pCounted pShard
+
+/-- shard-independent rewrites: `<op> <ctx> <q>`, impl = rewritten tree -/
+def rewriteOp (f : Q → Q) (r : List String) (impl : String) : String :=
+  match pCtx r with
+  | none => badCase "ctx"
+  | some (ctx, r) =>
+    match pTree r with
+    | some (q, []) =>
+      let model := showQ (f q)
+      match parseQ? impl with
+      | none => badCase "impl tree"
+      | some q' =>
+        if checkP ctx q q' then answer model else specFail model (failKey (sameDocs ctx) q q')
+    | _ => badCase "query"
+
+def handle (line : String) : String :=
+  let (inp, impl) := splitCase line
+  match fields inp with
+  | "ec" :: r => rewriteOp evalConstants r impl
+  | "simp" :: r => rewriteOp simplify r impl
+  | "exp" :: r => rewriteOp expand r impl
+  | "strip" :: r => rewriteOp stripCaseScopes r impl
+  | "fl" :: r =>
+    -- one flatten step: impl = `<changed> <tree>`
+    match pCtx r with
+    | none => badCase "ctx"
+    | some (ctx, r) =>
+      match pTree r with
+      | some (q, []) =>
+        let m := flatten q
+        let model := s!"{flag m.2} {showQ m.1}"
+        match fields impl with
+        | c :: t =>
+          match bool? c, pTree t with
+          | some _, some (q', []) =>
+            if checkP ctx q q' then answer model else specFail model (failKey (sameDocs ctx) q q')
+          | _, _ => badCase "impl tree"
+        | _ => badCase "impl"
+      | _ => badCase "query"
+  | "ss" :: r =>
+    -- per-shard simplification: `ss <ctx> <i> <q>`, impl = rewritten tree
+    match pCtx r with
+    | none => badCase "ctx"
+    | some (ctx, r) =>
+      match pNat r with
+      | none => badCase "shard index"
+      | some (i, r) =>
+        match ctx[i]?, pTree r with
+        | some s, some (q, []) =>
+          let model := showQ (shardSimplify s q)
+          match parseQ? impl with
+          | none => badCase "impl tree"
+          | some q' =>
+            if checkPShard ctx s q q' then answer model
+            else specFail model (failKey (sameDocsIn ctx s) q q')
+        | _, _ => badCase "query"
+  | "search" :: r =>
+    -- end to end: `search <ctx> <i> <q>`, impl = positions of the documents the real shard search returned
+    match pCtx r with
+    | none => badCase "ctx"
+    | some (ctx, r) =>
+      match pNat r with
+      | none => badCase "shard index"
+      | some (i, r) =>
+        match ctx[i]?, pTree r with
+        | some s, some (q, []) =>
+          -- what the code does: simplify against the shard, expand, evaluate
+          let model := showNatList (selected ctx s (expand (shardSimplify s q)))
+          match natList? impl with
+          | none => badCase "impl docs"
+          | some docs =>
+            if docs == selected ctx s q then answer model
+            else
+              let alt := selected ctx s (map emptyBranchAsTrue q)
+              specFail model (if hasEmptyBranch q && docs == alt then "branch-empty-pattern" else "search-differs")
+        | _, _ => badCase "query"
+  | _ => badCase "op"
+
+def main : IO Unit := runLines handle
 end ZoektModel.C05
